@@ -174,6 +174,19 @@ def batch_body(ctx, case):
     tol = 1e-12 if case["dtype"] == "float64" else 1e-5
     differ = n >= 2 and not np.array_equal(stack[0], stack[1])
     ctx.case(case, nontrivial=bool(differ and (t > 0 or which != "cog")), classes=[which, "n%d" % n, "t0" if t == 0 else "t_pos", case["dtype"]])
+    if which in ("cog", "quad") and n >= 2:
+        # "2d or greater rank": two leading axes must give the per-frame answers too
+        s4 = np.stack([stack, stack[::-1]])
+        if which == "cog":
+            g4 = c.centre_of_gravity(s4.copy())
+            p4 = np.stack([np.stack([c.centre_of_gravity(s4[a, b].copy()) for b in range(n)], axis=1) for a in range(2)], axis=1)
+            ctx.require(np.asarray(g4).shape == p4.shape, "centre_of_gravity of a rank-4 stack: shape %s, expected %s" % (np.asarray(g4).shape, p4.shape))
+            ctx.close(g4, p4, tol, "centre_of_gravity(rank-4 stack) == per frame", scale=max(ny, nx), name="cog batch rank 4")
+        else:
+            q4 = s4[..., :2, :2]
+            g4 = c.quadCell(q4.copy())
+            p4 = np.stack([np.stack([c.quadCell(q4[a, b].copy()) for b in range(n)], axis=1) for a in range(2)], axis=1)
+            ctx.close(g4, p4, tol, "quadCell(rank-4 stack) == per frame", scale=float(np.max(np.abs(q4))) * 4, name="quad batch rank 4")
     if which == "cog":
         if t != 0 and ctx.is_open(KF_COG):
             ctx.exclude(KF_COG)
